@@ -49,6 +49,11 @@ def check(repo: Repo, rep, tier):
     xfail(repo, rep)
     # in a CI run snapshot(x) *is* x: the CI detection decides whether the wrapper exists at all
     ci_detect(repo, rep)
+    from .C14 import reeval_fresh
+    from .C04 import xfail_marker
+
+    reeval_fresh(repo, rep)
+    xfail_marker(repo, rep)
 
 
 def adapter_dispatch(repo: Repo, rep):
